@@ -7,6 +7,7 @@ DJB's specification, Spec/Lookup3 after lookup3.c).
 import Cascette.Proofs.Salsa20
 import Cascette.Proofs.Jenkins
 import Cascette.Proofs.Arc4
+import Cascette.Proofs.Simd
 namespace Cascette.Props.C09
 open Cascette
 
@@ -104,6 +105,81 @@ theorem arc4_piecewise (c : Model.Arc4.Cipher) (a b : Bytes) :
     (Model.Arc4.apply c (a ++ b)).2 =
       (Model.Arc4.apply c a).2 ++ (Model.Arc4.apply (Model.Arc4.apply c a).1 b).2 := by
   rw [Proofs.Arc4.apply_append]
+
+/-! ### accelerated helpers = portable fallbacks (lane width 32 = AVX2, 16 = SSE2) -/
+
+open Model.Simd in
+/-- every feature set returns the scalar `vectorized_memcmp` result, for all buffers. -/
+theorem simd_memcmp_eq_scalar (f : Model.Simd.Features) (a b : List Nat) :
+    vectorizedMemcmp f a b = vectorizedMemcmp ⟨false, false⟩ a b := by
+  unfold vectorizedMemcmp
+  by_cases hl : a.length ≠ b.length
+  · rw [if_pos hl, if_pos hl]
+  · have hl' : a.length = b.length := by omega
+    rw [if_neg hl, if_neg hl]
+    simp only [Bool.false_eq_true, ↓reduceIte]
+    split
+    · exact Proofs.Simd.memcmpLanes_eq 32 _ a b hl'
+    · split
+      · exact Proofs.Simd.memcmpLanes_eq 16 _ a b hl'
+      · rfl
+
+open Model.Simd in
+/-- `batch_mem_equal` is slice equality for every feature set. -/
+theorem simd_mem_equal_eq_scalar (f : Model.Simd.Features) (a b : List Nat) :
+    memEqual f a b = (a == b) := by
+  unfold memEqual
+  by_cases hl : a.length ≠ b.length
+  · rw [if_pos hl]
+    have : a ≠ b := fun h => hl (by rw [h])
+    simp [this]
+  · rw [if_neg hl]
+    split
+    · exact Proofs.Simd.memEqLanes_eq 32 _ a b
+    · split
+      · exact Proofs.Simd.memEqLanes_eq 16 _ a b
+      · rfl
+
+open Model.Simd in
+/-- `vectorized_memmem` returns the first match position of the scalar scan, for every feature
+set, every haystack, every needle (any length, any position). -/
+theorem simd_memmem_eq_scalar (f : Model.Simd.Features) (hay needle : List Nat) :
+    vectorizedMemmem f hay needle = vectorizedMemmem ⟨false, false⟩ hay needle := by
+  unfold vectorizedMemmem
+  cases needle with
+  | nil => rfl
+  | cons first tl =>
+    simp only
+    split
+    · rfl
+    · simp only [Bool.false_eq_true, false_and, ↓reduceIte]
+      split
+      · exact Proofs.Simd.memmemLanes_eq 32 _ first tl rfl _ 0 hay
+      · split
+        · exact Proofs.Simd.memmemLanes_eq 16 _ first tl rfl _ 0 hay
+        · rfl
+
+open Model.Simd in
+theorem simd_memset_eq_scalar (f : Model.Simd.Features) (d : List Nat) (v : Nat) :
+    memset f d v = List.replicate d.length v := by
+  unfold memset
+  split
+  · exact Proofs.Simd.memsetLanes_eq 32 v _ d
+  · split
+    · exact Proofs.Simd.memsetLanes_eq 16 v _ d
+    · simp [List.map_const']
+
+open Model.Simd in
+theorem simd_memcpy_eq_scalar (f : Model.Simd.Features) (dest src : List Nat) :
+    memcpy f dest src =
+      src.take (min dest.length src.length) ++ dest.drop (min dest.length src.length) := by
+  unfold memcpy
+  simp only
+  split
+  · rw [Proofs.Simd.memcpyLanes_eq]
+  · split
+    · rw [Proofs.Simd.memcpyLanes_eq]
+    · rfl
 
 /-! ### non-vacuity: the hypotheses are met by concrete, non-trivial instances -/
 
